@@ -965,6 +965,46 @@ func genC11(g *Gen) {
 		}
 		g.Case("fromstr32", J{"s": bytesJ(s), "from": from, "w": r.Intn(33), "direct": true})
 	}
+	// the (up to) five bytes a window touches drawn from {0x00, 0xff, random}, every combination, at every from%8:
+	// a window whose whole bytes are all zero (or all ones) next to a partly used byte that is not
+	for pat := 0; pat < 243; pat++ {
+		for fb := 0; fb < 8; fb++ {
+			if g.Quick() && (pat+fb)%2 != int(g.Seed%2) {
+				continue
+			}
+			pre := r.Intn(3)
+			s := randBytes(r, pre)
+			for k, q := 0, pat; k < 5; k, q = k+1, q/3 {
+				s = append(s, []byte{0x00, 0xff, byte(1 + r.Intn(254))}[q%3])
+			}
+			if pat%5 == 0 {
+				s = append(s, byte(r.Intn(256)))
+			}
+			for _, w := range []int{32, 33 - fb, 25 + r.Intn(7), 1 + r.Intn(24)} {
+				if w > 32 {
+					w = 32
+				}
+				g.Case("fromstr32", J{"s": bytesJ(s), "from": 8*pre + fb, "w": w, "direct": true})
+			}
+		}
+	}
+	// long strings: 4 KiB, 8 KiB, 32 KiB, 64 KiB and their neighbours (8*len crosses 2^15, 2^16, 2^18, 2^19), windows
+	// at the start, around the powers of two and at / beyond the end
+	for _, n := range []int{4095, 4096, 4097, 8191, 8192, 8193, 32767, 32768, 32769, 65535, 65536, 65537, 100000} {
+		s := randBytes(r, n)
+		for _, at := range []int{0, 8 * 4095, 8 * 4096, 8 * 8192, 8 * 32767, 8 * 32768, 8 * 65536, 8*n - 40, 8*n - 8, 8 * n, 8*n + 8} {
+			if at < 0 || at > 8*n+8 {
+				continue
+			}
+			for c := 0; c < g.N(1, 12); c++ {
+				from := at + r.Intn(17) - 8
+				if from < 0 {
+					from = 0
+				}
+				g.Case("fromstr32", J{"s": bytesJ(s), "from": from, "w": []int{32, 32, 17, 1 + r.Intn(32)}[r.Intn(4)], "direct": true})
+			}
+		}
+	}
 	// start bits up to MaxInt32: far beyond any string; from+w may not fit int32 (then only PathOf is called)
 	for c := 0; c < g.N(300, 6000); c++ {
 		const maxI32 = int64(1)<<31 - 1
